@@ -116,6 +116,13 @@ class RngModel(Model):
         self.draws.append("multinomial")
         if isinstance(n, int) and n == 1:
             return OneHot(self, pvals)
+        if isinstance(pvals, SymSeq):
+            key = I.P.fresh_name("mult")
+
+            def facts(I_, i):
+                return [I_.P.z(alg.raw_app(key, i, sort="Int")) >= 0]
+
+            return SymSeq(key, pvals.length, lambda i: alg.raw_app(key, i, sort="Int"), facts)
         return Multiplicities(I, n, pvals)
 
     def m_shuffle(self, I, x):
